@@ -7,11 +7,16 @@ PYVC_NOTE = ("Trusted base: pyvc (this repo's VC generator: real function ASTs r
              "z3 5.1 (cvc5 1.0.3 for z3's unknowns), the CPython semantics pyvc encodes (DESIGN 4), well-typedness of stored data, atomic steps. ")
 
 CHECKS = {
- "C17": ("proof", "contract-based deductive verification: loop-free proof harnesses over the real shm api codec (segment algebra + z3), generated per message class from the source",
+ "C17": ("proof", "contract-based deductive verification: loop-free proof harnesses over the real shm api codec (segment algebra + z3), generated per message class from the source, "
+         "and over the real pickle-based encoders/decoders and framing functions with the dependency's round trip as the one assumed law",
          "For every message class found in cascade/shm/api.py and EVERY field valuation: api.ser(m) raises only outside the admitted domain and api.deser(api.ser(m)) == m "
-         "(148 verification conditions, all discharged). The pickle/orjson/pydantic based encodings (executor messages, reports, gateway JSON, JobInstance) are outside the verifier: "
+         "(148 verification conditions). With pickle.loads(pickle.dumps(v)) == v ASSUMED (codec_pair in contracts/c17_codecs.py), also proved for every message: "
+         "serde.des_message(ser_message(m)) == m; report.deserialize(serialize(r)) == r and deserialize rejects whatever is not a ControllerReport; the frames that ReliableSender.send, "
+         "comms.send_data and comms.callback put on their socket, handed as they are to the real Listener._recv_one (Syn not seen before), are accepted and give back exactly the message / payload "
+         "(header and value bytes) - 519 further verification conditions. The orjson/pydantic based encodings (gateway JSON, JobInstance) are outside the verifier: "
          "bounded stand-in only (enumerated instances), never counted as proved.",
-         PYVC_NOTE + "Assumed: int.to_bytes/from_bytes, ascii encode/decode and slice clamping as axiomatised in pyvc/bytesalg.py; pickle/cloudpickle/orjson/pydantic round-trip plain data."),
+         PYVC_NOTE + "Assumed: int.to_bytes/from_bytes, ascii encode/decode and slice clamping as axiomatised in pyvc/bytesalg.py; pickle round trip (codec_pair); comms.get_socket (opens a socket); "
+         "cloudpickle/orjson/pydantic round-trip plain data (stand-in only)."),
  "C18": ("proof", "contract-based deductive verification of JobRouter (pre/post, whole-view frames, ownership class invariant with ghost owners) by pyvc + z3",
          "JobRouter.__init__/spawn_job/maybe_update/put_result/get_result, server.handle_controller (every result a report carries is stored as uploaded, whatever else it carries) and next_uuid verified against contracts whose top clauses quote the property (newest timestamp wins, shutdown keeps progress, "
          "results stored per job+dataset, ids fresh, other jobs untouched); class invariant (one Job per id, one results dict per Job) established and preserved. The history claim follows by induction "
